@@ -6,6 +6,7 @@
 //!  '4 h' consuming call returning a wrapped child (Node::into_child)     '5 h' consuming call returning a plain value (Node::fin)
 //!  '6 h' clone (Clone objects and groups with Clone enabled)             '7 h' drop
 //!  '16 h' consuming call returning a plain value on a GROUP object (GFin::gfin)     '17 h' consuming call returning a wrapped child on a GROUP object (GFin::ginto_child)
+//!  '18 h' obtain an owned wrapped child through a &mut self method (Node::child_mut)     '19 h' the same on a GROUP object (GFin::gchild_mut)
 //!  '15 -77' create a boxed Peek2 object around a ZERO-SIZED instance
 //!  '11 h' cast! the group to Clone (fails and destroys the group when Clone is not enabled)   '12 h' upcast a cast group back
 //! after the script every slot is dropped in order.
@@ -21,6 +22,7 @@ pub trait Node {
     type Child: Peek2 + 'static;
     fn peek(&self) -> i64;
     fn child(&self) -> Self::Child;
+    fn child_mut(&mut self) -> Self::Child;
     fn into_child(self) -> Self::Child;
     fn fin(self) -> i64;
 }
@@ -39,6 +41,7 @@ pub trait GFin {
     type GChild: Peek2 + 'static;
     fn gfin(self) -> i64;
     fn ginto_child(self) -> Self::GChild;
+    fn gchild_mut(&mut self) -> Self::GChild;
 }
 
 cglue_trait_group!(LifeGrp, { Peek2, GFin }, { Clone });
@@ -61,10 +64,11 @@ impl Node for Inst {
     type Child = Inst;
     fn peek(&self) -> i64 { self.id }
     fn child(&self) -> Inst { Inst::new(self.id + 100) }
+    fn child_mut(&mut self) -> Inst { Inst::new(self.id + 100) }
     fn into_child(self) -> Inst { Inst::new(self.id + 200) }
     fn fin(self) -> i64 { self.id + 300 }
 }
-impl GFin for Inst { type GChild = Inst; fn gfin(self) -> i64 { self.id + 300 } fn ginto_child(self) -> Inst { Inst::new(self.id + 200) } }
+impl GFin for Inst { type GChild = Inst; fn gfin(self) -> i64 { self.id + 300 } fn ginto_child(self) -> Inst { Inst::new(self.id + 200) } fn gchild_mut(&mut self) -> Inst { Inst::new(self.id + 100) } }
 impl RefNode for Inst { type R = Inst; fn child_ref(&self) -> &Inst { self.sub.as_ref().unwrap() } }
 
 /// a ZERO-SIZED instance: boxing it allocates nothing, but it still has a destructor that must run exactly once
@@ -82,7 +86,7 @@ impl Peek2 for Zst { fn peek2(&self) -> i64 { -77 } }
 
 pub struct InstNoClone(Inst);
 impl Peek2 for InstNoClone { fn peek2(&self) -> i64 { self.0.id } }
-impl GFin for InstNoClone { type GChild = Inst; fn gfin(self) -> i64 { self.0.id + 300 } fn ginto_child(self) -> Inst { Inst::new(self.0.id + 200) } }
+impl GFin for InstNoClone { type GChild = Inst; fn gfin(self) -> i64 { self.0.id + 300 } fn ginto_child(self) -> Inst { Inst::new(self.0.id + 200) } fn gchild_mut(&mut self) -> Inst { Inst::new(self.0.id + 100) } }
 cglue_impl_group!(Inst, LifeGrp, { Clone });
 cglue_impl_group!(InstNoClone, LifeGrp, {});
 
@@ -161,6 +165,8 @@ pub fn run(_params: &[i64], ops: &Rows, mon: &mut Mon) -> Rows {
             12 => { match take(&mut pool, h) { H::GrpC(g) => res = Some(Some(H::Grp(g.upcast()))), other => { if h >= 0 && (h as usize) < pool.len() { pool[h as usize] = other; } } } }
             16 => { match take(&mut pool, h) { H::Grp(o) => { let _ = o.gfin(); res = Some(None); } H::GrpC(o) => { let _ = o.gfin(); res = Some(None); } other => { if h >= 0 && (h as usize) < pool.len() { pool[h as usize] = other; } } } }
             17 => { match take(&mut pool, h) { H::Grp(o) => res = Some(Some(H::Child(o.ginto_child()))), H::GrpC(o) => res = Some(Some(H::Child(o.ginto_child()))), other => { if h >= 0 && (h as usize) < pool.len() { pool[h as usize] = other; } } } }
+            18 => { if h >= 0 && (h as usize) < pool.len() { if let H::Node(o) = &mut pool[h as usize] { let ch = o.child_mut(); res = Some(Some(H::Child(ch))); } } }
+            19 => { if h >= 0 && (h as usize) < pool.len() { let ch = match &mut pool[h as usize] { H::Grp(o) => Some(o.gchild_mut()), H::GrpC(o) => Some(o.gchild_mut()), _ => None }; if let Some(ch) = ch { res = Some(Some(H::Child(ch))); } } }
             13 | 14 => {
                 // a consuming call on the object that holds the LAST reference to its context
                 let _ = CTX_DROP_SITES.with(|v| std::mem::take(&mut *v.borrow_mut()));
